@@ -278,15 +278,16 @@ inductive Ev where
 
 /-! ## signature-based dispatch (core.py L1315-1344) — hard-coded per class as `inspect.signature` reports -/
 
-/-- `accepts_seats(evaluator)`: class attribute `accepts_seats` (FixedSeatCount: False), else a parameter
-    named `n_seats` or any `*args` / `**kwargs` -/
+/-- `accepts_seats(evaluator)` after commit e582ee8: class attribute `accepts_seats` (FixedSeatCount:
+    False), else a parameter named `n_seats`, else for a generic `*args/**kwargs` signature the answer of
+    the attribute `evaluator` / `main` -/
 def acceptsSeats : Ev → Bool
   | .leaf sig _ => sig.seats
   | .fixedSeatCount _ _ => false
-  | .tieBreaking _ _ => true          -- (votes, *args, **kwargs)
-  | .preConverted _ _ => true         -- (votes, *args, **kwargs)
-  | .postConverted _ _ => true        -- (votes, *args, **kwargs)
-  | .votingSystem _ => true           -- (*args, **kwargs)
+  | .tieBreaking main _ => acceptsSeats main     -- (votes, *args, **kwargs), attribute `main`
+  | .preConverted _ e => acceptsSeats e          -- (votes, *args, **kwargs), attribute `evaluator`
+  | .postConverted e _ => acceptsSeats e
+  | .votingSystem e => acceptsSeats e            -- (*args, **kwargs)
   | .conditioned _ _ _ => true
   | .byConstituency _ _ _ => true
   | .preApportioned _ _ => true
@@ -296,8 +297,9 @@ def acceptsSeats : Ev → Bool
   | .unusedVotes _ _ _ => true
   | .partyList _ _ _ => true
 
-/-- `accepts_prev_gains(evaluator)` after commit 904ccca: a parameter named `prev_gains`, else for a
-    generic signature the answer of the attribute `evaluator` / `main`, else False -/
+/-- `accepts_prev_gains(evaluator)` = `_accepts_keyword(evaluator, 'prev_gains')` after e582ee8: a
+    parameter of that name, else for a generic signature the answer of the attribute `evaluator` / `main` /
+    `party_eval`, else False -/
 def acceptsPrevGains : Ev → Bool
   | .leaf sig _ => sig.prev
   | .fixedSeatCount e _ => acceptsPrevGains e      -- (votes, **kwargs), attribute `evaluator`
@@ -312,7 +314,33 @@ def acceptsPrevGains : Ev → Bool
   | .byParty _ _ => true
   | .multistage _ _ => true
   | .unusedVotes _ _ _ => true
-  | .partyList _ _ _ => false          -- (votes, n_seats, *, party_lists, list_votes, **kwargs): attribute is `party_eval`
+  | .partyList p _ _ => acceptsPrevGains p   -- (votes, n_seats, *, party_lists, list_votes, **kwargs): `party_eval`
+
+/-- `accepts_max_seats(evaluator)` = `_accepts_keyword(evaluator, 'max_seats')` (new in e582ee8).
+    Conditioned names `prev_gains` but takes `max_seats` only through `**kwargs`: look-through -/
+def acceptsMaxSeats : Ev → Bool
+  | .leaf sig _ => sig.max
+  | .fixedSeatCount e _ => acceptsMaxSeats e
+  | .tieBreaking main _ => acceptsMaxSeats main
+  | .preConverted _ e => acceptsMaxSeats e
+  | .postConverted e _ => acceptsMaxSeats e
+  | .votingSystem e => acceptsMaxSeats e
+  | .conditioned _ e _ => acceptsMaxSeats e
+  | .byConstituency _ _ _ => true
+  | .preApportioned _ _ => true
+  | .removedApportionment _ => true
+  | .byParty _ _ => true
+  | .multistage _ _ => true
+  | .unusedVotes _ _ _ => true
+  | .partyList p _ _ => acceptsMaxSeats p
+
+/-! ### the flags as they were (kept for the witnesses of the repaired defects only) -/
+
+/-- `accepts_seats` BEFORE commit e582ee8: `'n_seats' in params or _has_generic(params)` -/
+def acceptsSeatsOld : Ev → Bool
+  | .leaf sig _ => sig.seats
+  | .fixedSeatCount _ _ => false
+  | _ => true
 
 /-- `accepts_prev_gains` BEFORE commit 904ccca (`'prev_gains' in signature.parameters`) -/
 def acceptsPrevGainsOld : Ev → Bool
@@ -322,6 +350,17 @@ def acceptsPrevGainsOld : Ev → Bool
   | .preConverted _ _ => false
   | .postConverted _ _ => false
   | .votingSystem _ => false
+  | .partyList _ _ _ => false
+  | _ => true
+
+/-- `accepts_prev_gains` between 904ccca and e582ee8: looks through `evaluator` / `main`, not `party_eval` -/
+def acceptsPrevGains904 : Ev → Bool
+  | .leaf sig _ => sig.prev
+  | .fixedSeatCount e _ => acceptsPrevGains904 e
+  | .tieBreaking main _ => acceptsPrevGains904 main
+  | .preConverted _ e => acceptsPrevGains904 e
+  | .postConverted e _ => acceptsPrevGains904 e
+  | .votingSystem e => acceptsPrevGains904 e
   | .partyList _ _ _ => false
   | _ => true
 
@@ -555,20 +594,30 @@ def postConvertedImpl (part : Sem) (c : V → Except Err V) : Sem := fun a => do
   let r ← part a
   c r
 
-/-- one district of ByConstituency (`_evaluate_district`, core.py L997-1018); `none` = no value -/
-def districtImpl (evPrev : Bool) (part : Sem) (presel : Option V) (dvotes nd prev max : V) :
+/-- one district of ByConstituency (`_evaluate_district`, core.py L997-1016); `none` = no value.
+    `prev_gains` and `max_seats` are passed separately, each where accepted (e582ee8) -/
+def districtImpl (evPrev evMax : Bool) (part : Sem) (presel : Option V) (dvotes nd prev max : V) :
     Except Err (Option V) :=
   if isZero nd then pure Option.none
   else do
     let dv ← match presel with
       | some ps => subsetVotes dvotes ps
       | Option.none => pure dvotes
-    let r ← if evPrev then part { votes := dv, n := some nd, prev := some prev, max := some max }
-            else part { votes := dv, n := some nd }
+    let r ← part { votes := dv, n := some nd
+                   prev := if evPrev then some prev else Option.none
+                   max := if evMax then some max else Option.none }
     pure (if isNone r then Option.none else some r)
 
-/-- ByConstituency.evaluate (core.py L940-995, L1020-1030) -/
-def byConstituencyImpl (evPrev preSeats : Bool) (part : Sem) (app : App Sem) (pre : Option Sem) : Sem :=
+/-- the results dict: evaluated districts, then the districts without a value with `result_type()` -/
+def districtResults (rs : List (Key × Option V)) (kind : V) : V :=
+  .dict (rs.filterMap (fun p => p.2.map (fun r => (p.1, r)))
+         ++ rs.filterMap (fun p => match p.2 with
+              | Option.none => some (p.1, kind)
+              | some _ => Option.none))
+
+/-- ByConstituency.evaluate (core.py L940-995, L1018-1028) after 9f4a9df: `apportionment.get(district, 0)`,
+    `type(next(iter(results.values()), {}))` -/
+def byConstituencyImpl (evPrev evMax preSeats : Bool) (part : Sem) (app : App Sem) (pre : Option Sem) : Sem :=
   fun a => do
   if !a.noExt then throw eType
   let n := a.n.getD .none
@@ -586,17 +635,52 @@ def byConstituencyImpl (evPrev preSeats : Bool) (part : Sem) (app : App Sem) (pr
     let ad ← appo.items
     let pd ← prev.items
     let md ← max.items
-    let r ← districtImpl evPrev part presel p.2 ((D.get? ad p.1).getD .none)
+    let r ← districtImpl evPrev evMax part presel p.2 ((D.get? ad p.1).getD (.num 0))
+              ((D.get? pd p.1).getD (.dict [])) ((D.get? md p.1).getD (.dict []))
+    pure (p.1, r))
+  pure (districtResults rs (match rs.findSome? (·.2) with
+    | some first => emptyLike first
+    | Option.none => .dict []))
+
+/-- `_evaluate_district` BEFORE e582ee8: `prev_gains` and `max_seats` together (witnesses only) -/
+def districtImplOld (evPrev : Bool) (part : Sem) (presel : Option V) (dvotes nd prev max : V) :
+    Except Err (Option V) :=
+  if isZero nd then pure Option.none
+  else do
+    let dv ← match presel with
+      | some ps => subsetVotes dvotes ps
+      | Option.none => pure dvotes
+    let r ← if evPrev then part { votes := dv, n := some nd, prev := some prev, max := some max }
+            else part { votes := dv, n := some nd }
+    pure (if isNone r then Option.none else some r)
+
+/-- ByConstituency.evaluate BEFORE 9f4a9df / e582ee8: `apportionment.get(district)` (None for a district
+    the apportionment does not mention), `next(iter(results.values()))` (StopIteration when nothing was
+    evaluated) — witnesses only -/
+def byConstituencyImplOld (evPrev preSeats : Bool) (part : Sem) (app : App Sem) (pre : Option Sem) : Sem :=
+  fun a => do
+  if !a.noExt then throw eType
+  let n := a.n.getD .none
+  let prev := a.prev.getD (.dict [])
+  let max := a.max.getD (.dict [])
+  let appo ← apportion app a.votes n
+  let presel ← match pre with
+    | Option.none => pure Option.none
+    | some p => do
+        let nat ← voteTotals a.votes
+        let r ← if preSeats then p { votes := nat, n := some n } else p { votes := nat }
+        pure (some r)
+  let kvs ← a.votes.items
+  let rs ← kvs.mapM (fun p => do
+    let ad ← appo.items
+    let pd ← prev.items
+    let md ← max.items
+    let r ← districtImplOld evPrev part presel p.2 ((D.get? ad p.1).getD .none)
               ((D.get? pd p.1).getD (.dict [])) ((D.get? md p.1).getD (.dict []))
     pure (p.1, r))
   match rs.findSome? (·.2) with
   | Option.none => throw eStop
-  | some first =>
-      let done : D := rs.filterMap (fun p => p.2.map (fun r => (p.1, r)))
-      let empties : D := rs.filterMap (fun p => match p.2 with
-        | Option.none => some (p.1, emptyLike first)
-        | some _ => Option.none)
-      pure (.dict (done ++ empties))
+  | some first => pure (districtResults rs (emptyLike first))
 
 /-- PreApportioned.evaluate (core.py L1058-1075) -/
 def preApportionedImpl (part : Sem) (app : App Sem) : Sem := fun a => do
@@ -631,14 +715,15 @@ def setNested (res : D) (c party : Key) (s : V) : Except Err D := do
   let inner ← ((res.get? c).getD (.dict [])).items
   pure (res.set c (.dict (D.set inner party s)))
 
-/-- ByParty.evaluate (core.py L1140-1196) -/
-def byPartyImpl (allocPrev : Bool) (overall allocator : Sem) : Sem := fun a => do
+/-- ByParty.evaluate (core.py L1140-1199); `overallSeats = accepts_seats(overall_evaluator)` decides whether
+    `n_seats` is handed to the overall evaluator (e582ee8; before: always, `overallSeats := true`) -/
+def byPartyImpl (overallSeats allocPrev : Bool) (overall allocator : Sem) : Sem := fun a => do
   if !a.noExt then throw eType
   let n := a.n.getD .none
   let prev := a.prev.getD (.dict [])
   let max := a.max.getD (.dict [])
   let ov ← voteTotals a.votes
-  let ores ← overall { votes := ov, n := some n }
+  let ores ← if overallSeats then overall { votes := ov, n := some n } else overall { votes := ov }
   let od ← ores.items
   let kvs ← a.votes.items
   let res ← od.foldlM (fun (res : D) pk => do
@@ -708,7 +793,7 @@ def unusedVotesImpl (stages : List Sem) (quotas : List QuotaFn) (depth : Nat) : 
     | Option.none => throw eType
   let prev := a.prev.getD (.dict [])
   let max := a.max.getD (.dict [])
-  let el ← do let d ← prev.items; pure (V.dict d)
+  let el ← copyNested depth prev          -- caf8ac3: `_copy_nested(prev_gains, depth)`
   if max.truthy then throw .notImplemented
   unusedLoop depth (zipQuotas stages (quotas.map some ++ [Option.none])) a.votes n el
 
@@ -780,7 +865,7 @@ def eval : Ev → Sem
   | .preConverted c e => preConvertedImpl c.run (eval e)
   | .postConverted e c => postConvertedImpl (eval e) c.run
   | .byConstituency e app pre =>
-      byConstituencyImpl (acceptsPrevGains e)
+      byConstituencyImpl (acceptsPrevGains e) (acceptsMaxSeats e)
         (match pre with | some p => acceptsSeats p | Option.none => false)
         (eval e)
         (match app with | .none => .none | .int k => .int k | .dict d => .dict d | .ev ap => .ev (eval ap))
@@ -791,8 +876,8 @@ def eval : Ev → Sem
   | .removedApportionment e => removedApportionmentImpl (eval e)
   | .byParty overall alloc =>
       match alloc with
-      | some al => byPartyImpl (acceptsPrevGains al) (eval overall) (eval al)
-      | Option.none => byPartyImpl (acceptsPrevGains overall) (eval overall) (eval overall)
+      | some al => byPartyImpl (acceptsSeats overall) (acceptsPrevGains al) (eval overall) (eval al)
+      | Option.none => byPartyImpl (acceptsSeats overall) (acceptsPrevGains overall) (eval overall) (eval overall)
   | .multistage rounds depth => multistageImpl (evalList rounds) depth
   | .unusedVotes rounds quotas depth => unusedVotesImpl (evalList rounds) quotas depth
   | .partyList party le conv => partyListImpl (eval party) le (conv.map Conv.run)
